@@ -16,7 +16,9 @@ EXTENDS Naturals, Sequences, TLC
 
 CONSTANTS MaxLen
 
-Ops == {"freeze_features", "freeze_rf", "freeze_dilation", "train_net_only", "train_nas_only",
+\* "set_masks": the optimizer moves the masks (at most once per history here); every other call is made either
+\* BEFORE it (on the freshly converted model) or AFTER it
+Ops == {"set_masks", "freeze_features", "freeze_rf", "freeze_dilation", "train_net_only", "train_nas_only",
         "train_net_and_nas", "summary", "cost", "continuous_cost", "discrete_cost",
         "train_mode_roundtrip", "export"}
 
@@ -33,7 +35,8 @@ Init == /\ masks = "m0"
 Do(op) ==
     /\ Len(hist) < MaxLen
     /\ hist' = Append(hist, op)
-    /\ masks' = masks                       \* no call of this alphabet writes a mask
+    /\ (op = "set_masks" => masks = "m0")
+    /\ masks' = (IF op = "set_masks" THEN "m1" ELSE masks)      \* no other call of this alphabet writes a mask
     /\ CASE op = "freeze_features" -> sw' = [sw EXCEPT !.features = FALSE] /\ rg' = [rg EXCEPT !.alpha = FALSE] /\ UNCHANGED dcost
          [] op = "freeze_rf"       -> sw' = [sw EXCEPT !.rf = FALSE] /\ rg' = [rg EXCEPT !.beta = FALSE] /\ UNCHANGED dcost
          [] op = "freeze_dilation" -> sw' = [sw EXCEPT !.dilation = FALSE] /\ rg' = [rg EXCEPT !.gamma = FALSE] /\ UNCHANGED dcost
@@ -49,6 +52,6 @@ Spec == Init /\ [][Next]_vars
 
 \* what is computed / reported / exported is a function of the masks only
 Obs(m) == m
-ObsDependsOnMasksOnly == Obs(masks) = "m0"
-MasksOnlyBySetMasks == [][masks' = masks]_vars
+ObsDependsOnMasksOnly == Obs(masks) = (IF \E i \in DOMAIN hist : hist[i] = "set_masks" THEN "m1" ELSE "m0")
+MasksOnlyBySetMasks == [][masks' # masks => hist' = Append(hist, "set_masks")]_vars
 =============================================================================
